@@ -62,9 +62,16 @@ def write_if_changed(path, content):
     os.replace(tmp, path)
 
 
+def build_dir(pid, repo):
+    """Build/output directory of a property; scratch trees (--repo) get their own."""
+    if os.path.abspath(repo) == os.path.abspath(REPO):
+        return os.path.join(BUILD, pid)
+    return os.path.join(BUILD, "%s-%s" % (pid, hashlib.sha256(os.path.abspath(repo).encode()).hexdigest()[:8]))
+
+
 def prepare_build(pid, cfg, repo):
     """Writes overlay.json, <mod>.mod and <mod>.sum for one property. Returns paths."""
-    bdir = os.path.join(BUILD, pid)
+    bdir = build_dir(pid, repo)
     os.makedirs(os.path.join(bdir, "bin"), exist_ok=True)
     module = cfg["module"]
     moddir = os.path.join(repo, module)
@@ -265,7 +272,7 @@ def merge_stats(outdir):
     return merged
 
 
-def write_evidence(pid, cfg, tier, seed, merged, wall, violations, extra_notes):
+def write_evidence(pid, cfg, tier, seed, merged, wall, violations, extra_notes, evdir=None):
     cov = {
         "evaluations": sum(m["evaluations"] for m in merged.values()),
         "distinct_nontrivial": sum(len(m["hashes"]) for m in merged.values()),
@@ -294,8 +301,9 @@ def write_evidence(pid, cfg, tier, seed, merged, wall, violations, extra_notes):
         "coverage": cov, "assumptions": cfg.get("assumptions", []),
         "wall_s": round(wall, 2), "violations": violations,
     }
-    os.makedirs(os.path.join(VERIF, "evidence"), exist_ok=True)
-    p = os.path.join(VERIF, "evidence", pid + ".json")
+    evdir = evdir or os.path.join(VERIF, "evidence")
+    os.makedirs(evdir, exist_ok=True)
+    p = os.path.join(evdir, pid + ".json")
     tmp = p + ".tmp"
     with open(tmp, "w") as f:
         json.dump(ev, f, indent=1, default=str)
@@ -344,7 +352,7 @@ def main(argv):
         if binaries["race"] is None:
             log("INCONCLUSIVE property=%s reason=race-build-failed" % pid)
             return 2
-    outdir = os.path.join(BUILD, pid, "out")
+    outdir = os.path.join(build_dir(pid, repo), "out")
     shutil.rmtree(outdir, ignore_errors=True)
     os.makedirs(outdir)
     replay = None
@@ -398,7 +406,7 @@ def main(argv):
         else:
             infra.append("%s shard %d: exit %s without a recorded violation (see %s)" % (name, pr.shard, rc, pr.logpath))
     # --- persist found replays outside the scratch out dir
-    found_dir = os.path.join(BUILD, "found", pid)
+    found_dir = os.path.join(BUILD, "found", os.path.basename(build_dir(pid, repo)))
     final_viol = []
     for name, src, msg in violations:
         os.makedirs(found_dir, exist_ok=True)
@@ -418,7 +426,9 @@ def main(argv):
         final_viol.append((name, dst, msg))
     wall = time.time() - t0
     if not replay:
-        ev = write_evidence(pid, cfg, args.tier, seed, merged, wall, len(final_viol), infra)
+        custom = os.path.abspath(repo) != os.path.abspath(REPO)
+        ev = write_evidence(pid, cfg, args.tier, seed, merged, wall, len(final_viol), infra,
+                            evdir=os.path.join(build_dir(pid, repo), "evidence") if custom else None)
         cov = ev["coverage"]
         log("evidence: evaluations=%d distinct_nontrivial=%d wall=%.1fs" % (cov["evaluations"], cov["distinct_nontrivial"], wall))
         for name, pt in cov["per_test"].items():
